@@ -303,7 +303,7 @@ func TestProp(t *testing.T) {
 	rep.Rule("sequential: ALL event sequences over {start, finish-ok/finish-fail of the oldest running call admitted in generation g (for every g with running calls), advance past the back-off deadline, advance short of it (once per open period)} of the stated depth for (trip,reset,cap) in {1,2,3}^3, each run against a fresh real Breaker with every event serialised and compared with the reference machine after every event; plus random walks of 200 events with (trip,reset,cap) in {1..4}^3. concurrent: short histories (<=25 operations: begin/end of each call, clock advances, H1 snapshots) of 4-8 goroutines at GOMAXPROCS 2/4/16, checked with porcupine against the same machine. evaluations = sequences + walks + histories. distinct = (parameter triple, abstract reference transition) pairs reached by the exhaustive enumeration + distinct walks + distinct concurrent history shapes (operation order by call/return stamp)")
 	rep.Assume("the harness clock serves Now() from an atomic counter (benbjohnson mock embedded for the unused methods): the mock's Add() sleeps 1 ms per call; the breaker only calls Now()")
 	rep.Assume("the open -> half-open transition is evaluated when the breaker is consulted (call start, call completion), as the property's anchors describe; the reference machine is consulted at the same points")
-	rep.Assume("half-open with the cap filled only thanks to calls admitted before the half-open period: both admit and reject are accepted (the statement bounds admissions from above only); counted as seq_half_open_dont_care_zone")
+	rep.Assume("the half-open cap bounds the calls in flight, including calls admitted before the half-open period that are still running (strict reading of 'admits at most the configured number of concurrent calls')")
 	rep.Assume("clock advances never land exactly on a back-off deadline")
 
 	rf := env.LoadReplay()
